@@ -35,6 +35,12 @@ static USE_AVX2: LazyLock<bool> = LazyLock::new(|| {
     is_x86_feature_detected!("avx2") && !NO_VALUES.contains(&use_avx2.as_str())
 });
 
+/// Verification hook: whether the AVX2 `contains` search path is active.
+#[cfg(all(wirefilter_verif, any(target_arch = "x86", target_arch = "x86_64")))]
+pub(crate) fn verif_use_avx2() -> bool {
+    *USE_AVX2
+}
+
 #[cfg(target_arch = "wasm32")]
 static USE_SIMD128: LazyLock<bool> = LazyLock::new(|| {
     use std::env;
@@ -592,6 +598,8 @@ impl Expr for ComparisonExpr {
                     }
 
                     let position = rng().random_range(1..bytes.len());
+                    #[cfg(wirefilter_verif)]
+                    let position = crate::verif::contains_anchor(bytes.len()).unwrap_or(position);
                     return unsafe {
                         match bytes.len() {
                             2 => search!(ArraySearcher(Avx2Searcher::with_position(
